@@ -82,6 +82,27 @@ class AORun(object):
         self.do_publish(oi, chart, f['sig'], f.get('prio'), 'handler')
       elif op == 'subscribe':
         self.do_subscribe(oi, chart, f['sig'], f.get('kind'), 'handler')
+      elif op == 'timed':
+        # a handler arms a timed source (the usual way: a heartbeat armed on entry / on an event)
+        self.uid += 1
+        uid = 't%d' % self.uid
+        ne = ev.Event(signal=f['sig'], payload=uid)
+        b = self.sim.record('ao', 'op', 'begin', ('handler', 'timed'))
+        src = {'obj': oi, 'kind': f.get('kind', 'fifo'), 'sig': f['sig'], 'period': f['period'], 'times': f.get('times', 0),
+               'deferred': f.get('deferred', True), 'uid': uid, 't0_us': self.sim.now_us, 'begin': b, 'end': None, 'client': 'handler',
+               'slot': None, 'id': None, 'rejected': False, 'exc': None, 'threads': [], 'event': ne}
+        self.sources.append(src)
+        before = len(self.sim.threads)
+        try:
+          src['id'] = (chart.post_fifo if src['kind'] == 'fifo' else chart.post_lifo)(
+            ne, period=f['period'], times=src['times'], deferred=src['deferred'])
+        except kernel.SimAbort:
+          raise
+        except BaseException as ex:  # noqa
+          src['rejected'] = True
+          src['exc'] = type(ex).__name__
+        src['threads'] = [t.name for t in self.sim.threads[before:] if t.role == 'timer']
+        src['end'] = self.sim.seq
       elif op == 'stop':
         b = self.sim.record('ao', 'op', 'begin', ('handler', 'stop'))
         rec = {'obj': oi, 'begin': b, 'end': None, 'from': 'handler'}
@@ -334,6 +355,18 @@ def run_ao(sc, sched, max_steps=200000, horizon_s=None):
     run.fabric = ao.ActiveFabric()
     for k, script in enumerate(sc['clients']):
       sim.spawn(run.client, (k, script), role='client')
+
+  def state_fn():
+    out = []
+    for o in run.objs:
+      ld = o.locking_deque
+      out.append((min(ld.deque.real_len(), 8), min(ld.locking_queue._qsize(), 8)))
+    timers = sum(1 for t in sim.threads if t.role == 'timer' and t.state != kernel.DONE)
+    f = run.fabric
+    fab = (sum(1 for t in sim.threads if t.role.startswith('fabric') and t.state != kernel.DONE),
+           min(f.fifo_fabric_queue._qsize(), 5), min(f.lifo_fabric_queue._qsize(), 5)) if f is not None else ()
+    return (tuple(out), min(timers, 6), fab)
+  sim.state_fn = state_fn
 
   sim.spawn(main, role='main')
   reason = sim.run(horizon_us=int(horizon_s * 1e6) if horizon_s else None)
